@@ -204,6 +204,15 @@ def run_check(prop, tier):
             au = audit(prop, scratch)
             if not au["ok"] or au["discharged"] != au["obligations"] or au["axioms"]:
                 broken.append(("audit", "property theorems of %s are not all closed under the global context: %s\n%s" % (prop, au["axioms"], au.get("log", ""))))
+            if tier == "thorough":
+                # the independent checker re-checks Props/Cnn.vo and everything it depends on
+                ck = sh("timeout 3000 coqchk -silent -o -R . XV XV.Props.%s" % prop, cwd=COQ, check=False)
+                out = ck.stdout or ""
+                fine = (ck.returncode == 0 and "Axioms: <none>" in out and "type-in-type: <none>" in out
+                        and "unsafe (co)fixpoints: <none>" in out and "positivity is assumed: <none>" in out)
+                au["coqchk"] = "coqchk -silent -o XV.Props.%s: %s" % (prop, "accepted; no axioms, no type-in-type, no unsafe fixpoints, no assumed positivity" if fine else "REJECTED or not clean")
+                if not fine:
+                    broken.append(("coqchk", out[-1500:]))
             from tools import facts as factsmod  # noqa
             fres = factsmod.check(prop, REPO, scratch, COQ)
             au["obligations"] += fres["obligations"]
@@ -304,7 +313,7 @@ def run_check(prop, tier):
             "theorems": au.get("theorems", []),
             "axioms": axioms_used,
             "facts": au.get("facts", ""),
-            "vm_compute_crosscheck": au.get("vm_compute_crosscheck", ""),
+            "vm_compute_crosscheck": au.get("vm_compute_crosscheck", ""), "coqchk": au.get("coqchk", "not run in the quick tier"),
             "evaluations": stats.get("evaluations", 0), "distinct_nontrivial": stats.get("distinct_nontrivial", 0),
             "rule": stats.get("rule", ""), "samples": (stats.get("samples") or [])[:12] or ["(none)"],
             "distribution": stats.get("distribution", {}),
